@@ -534,6 +534,13 @@ def bytes_roles(prog):
     return None
 
 
+def gcd_(a, b):
+    a, b = abs(a), abs(b)
+    while b:
+        a, b = b, a % b
+    return a
+
+
 class Machine:
     def __init__(self, prog, prims=None, hooks=None):
         self.p = prog
@@ -1819,6 +1826,28 @@ class Machine:
                 elif not fits:
                     self.oblige(st, "no-wrap", fits, "%s may wrap: %s" % (op, self.show_sym(r)))
                 return r
+            if op in ("Shl", "ShlUnchecked") and kb == "int" and 0 <= b[1] < bits:
+                # x << k is x * 2^k as long as no set bit is shifted out (proved from the bounds;
+                # otherwise the value is outside the linear domain)
+                k_ = 1 << b[1]
+                ts, cs = sym_of(a)
+                lo, hi = self.sym_bounds(st, sym_norm([(s, c * k_) for s, c in ts.items()], cs * k_, 0, True))
+                tlo, thi = int_range(bits, signed)
+                if lo is not None and hi is not None and tlo <= lo and hi <= thi and lo >= 0:
+                    return sym_norm([(s, c * k_) for s, c in ts.items()], cs * k_, bits, signed)
+                raise Unanalysable("shift of a symbolic integer that may lose bits")
+            if op == "BitOr" and ka == "sym" and kb in ("sym", "int", "cell"):
+                # (multiple of 2^k) | (value below 2^k) is their sum
+                ts, cs = sym_of(a)
+                g = cs
+                for c in ts.values():
+                    g = gcd_(g, c)
+                low = g & -g if g else 0  # largest power of two dividing every coefficient and the constant
+                blo, bhi = self.sym_bounds(st, b if kb != "cell" else ("sym", ((("c", b[1], b[2]), 1),), 0, b[3], b[4]))
+                alo, _ = self.sym_bounds(st, ("sym", a[1], a[2], 0, True))
+                if low and blo is not None and bhi is not None and 0 <= blo and bhi < low and alo is not None and alo >= 0:
+                    return self.binop(st, "Add", a, b)
+                raise Unanalysable("bitwise or of symbolic integers")
             if op == "BitAnd" and (ka == "int" or kb == "int"):
                 k_, s_ = (a[1], b) if ka == "int" else (b[1], a)
                 # alignment test of an address: addr & (align-1)
